@@ -223,10 +223,8 @@ func (tb *TB) Term(v ssa.Value) *Term {
 		switch v.(type) {
 		case *ssa.Alloc:
 			return &Term{Op: "Self", V: v}
-		case *ssa.Phi:
-			return &Term{Op: "Loop", V: v}
 		}
-		return mk("Unknown", "cycle", v)
+		return &Term{Op: "Loop", V: v}
 	}
 	tb.active[v] = true
 	t := tb.build(v)
@@ -435,6 +433,9 @@ func (tb *TB) build(v ssa.Value) *Term {
 // unstableFields returns the set of "type.field" names stored by fn itself
 // or by any in-module function it can reach.
 func (tb *TB) fieldUnstable(fa *ssa.FieldAddr) bool {
+	if al, ok := fa.X.(*ssa.Alloc); ok && allocEscapes(al) {
+		return true
+	}
 	key := structTypeName(fa.X.Type()) + "." + fieldName(fa.X.Type(), fa.Field)
 	eff := tb.p.EffectsOf(tb.fn)
 	if eff == nil {
@@ -528,6 +529,9 @@ func (tb *TB) load(x *ssa.UnOp) *Term {
 // dominates the load with no other possible write to the field in between:
 // the load then yields the stored value.
 func (tb *TB) dominatingFieldStore(x *ssa.UnOp, a *ssa.FieldAddr) *ssa.Store {
+	if al, ok := a.X.(*ssa.Alloc); ok && allocEscapes(al) {
+		return nil // code we do not see may write the struct
+	}
 	key := fieldKey(a)
 	baseKey := tb.baseTerm(a.X).Key()
 	var best *ssa.Store
@@ -561,6 +565,9 @@ func (tb *TB) dominatingFieldStore(x *ssa.UnOp, a *ssa.FieldAddr) *ssa.Store {
 // representative and has no epoch yet. Independent of the order in which
 // terms are requested.
 func (tb *TB) sharedEpoch(x *ssa.UnOp, a *ssa.FieldAddr) int {
+	if al, ok := a.X.(*ssa.Alloc); ok && allocEscapes(al) {
+		return 0
+	}
 	key := fieldKey(a)
 	baseKey := tb.baseTerm(a.X).Key()
 	rep := x
@@ -635,6 +642,24 @@ func (tb *TB) fieldWrittenBetween(from, to ssa.Instruction, key string) bool {
 	return false
 }
 
+// allocEscapes: a pointer to the local struct is handed to a call, stored,
+// captured or returned, so that code outside this function body may write it.
+func allocEscapes(al *ssa.Alloc) bool {
+	for _, r := range *al.Referrers() {
+		switch u := r.(type) {
+		case *ssa.FieldAddr, *ssa.DebugRef:
+		case *ssa.Store:
+			if u.Val == ssa.Value(al) {
+				return true
+			}
+		case *ssa.UnOp:
+		default:
+			return true
+		}
+	}
+	return false
+}
+
 // baseTerm is Term for the base of a field access: a struct allocated in this
 // function is named by its type instead of being expanded.
 func (tb *TB) baseTerm(v ssa.Value) *Term {
@@ -664,15 +689,24 @@ func (tb *TB) termIn(f *ssa.Function, v ssa.Value) *Term {
 // before instruction at (so that a single store really is the only writer).
 func escapesBefore(al *ssa.Alloc, at ssa.Instruction) bool {
 	for _, r := range *al.Referrers() {
-		switch c := r.(type) {
-		case ssa.CallInstruction:
-			if dominatesInstr(c.(ssa.Instruction), at) {
-				return true
-			}
+		switch u := r.(type) {
+		case *ssa.FieldAddr, *ssa.DebugRef, *ssa.UnOp:
+			continue
 		case *ssa.Store:
-			if c.Val == al && dominatesInstr(c, at) {
+			if u.Val != ssa.Value(al) {
+				continue
+			}
+		}
+		// any other use (call argument, interface conversion, store of the
+		// pointer, closure capture, return) that can execute before `at`
+		if r.Block() == at.Block() {
+			if instrIndex(r) < instrIndex(at) {
 				return true
 			}
+			continue
+		}
+		if r.Block().Dominates(at.Block()) || blockCanReach(r.Block(), at.Block()) {
+			return true
 		}
 	}
 	return false
